@@ -18,8 +18,8 @@ of `hist`" (`Op.crash k`).
   dropped from the store.
 * `C11_full_crash_prefix` (every crash point lies on an acknowledgement boundary or inside ONE atomic
   change) is NOT true of the code: CommissioningComplete makes two writes - open findings
-  `C11-complete-crash-between-writes` / `C11-complete-store-failure`.  The provable part is
-  `single_write_ops`: every fabric-scoped write outside a fail-safe mutates the store at most once.
+  `C11-complete-crash-between-writes` / `C11-complete-store-failure`.  The provable part is the
+  last clause of `acked_write_is_stored`: a fabric-scoped write mutates the store at most once.
 -/
 namespace C11
 open Admin
